@@ -217,11 +217,78 @@ def run_case(case):
 # ---------------------------------------------------------------------------
 # exhaustive small scope
 
-EXHAUSTIVE_NOTE = "extra phase 'small_scope': every list of <= L events whose data over keys a,b is any of {absent,'x',1,null,['x']}^2, with duration 0 or 1.5 s and id None or 0, against every key list ([a],[b],[a,b],[b,a]); all seven functions are judged on each (quick L=2: 10 100 lists x 4; thorough L=3)"
+EXHAUSTIVE_NOTE = "extra phase 'large' (not exhaustive): 400 000 events merged by two keys, sums exact to the microsecond; extra phase 'small_scope': every list of <= L events whose data over keys a,b is any of {absent,'x',1,null,['x']}^2, with duration 0 or 1.5 s and id None or 0, against every key list ([a],[b],[a,b],[b,a]); all seven functions are judged on each (quick L=2: 10 100 lists x 4; thorough L=3)"
 
 
 def extra_phases(tier, seed, jobs):
-    return [("small_scope", "phase_small_scope", [{"i": i, "n": jobs, "L": 2 if tier == "quick" else 3} for i in range(jobs)])]
+    large = [{"n": 400_000, "seed": seed * 13 + k} for k in range(1 if tier == "quick" else 4)]
+    return [("small_scope", "phase_small_scope", [{"i": i, "n": jobs, "L": 2 if tier == "quick" else 3} for i in range(jobs)]), ("large", "phase_large", large)]
+
+
+def _large(task):
+    """A year's worth of events merged by key: the group sums must still be exact to the microsecond."""
+    import random
+
+    from aw_core.models import Event
+    import aw_transform as T
+
+    rnd = random.Random(task["seed"])
+    apps = ["editor", "browser", "terminal"]
+    evs, sums, total, t = [], {}, 0, 0
+    for k in range(task["n"]):
+        app = rnd.choice(apps)
+        tags = rnd.choice([None, ["a"], ["a", "b"]])
+        dur = rnd.choice([1, 999, rnd.randrange(1, 3_000_000_000), rnd.randrange(1, 10**7)])
+        data = {"app": app}
+        if tags is not None:
+            data["$tags"] = list(tags)
+        evs.append(Event(timestamp=gen.dt_utc(BASE_US + t * 1000), duration=timedelta(microseconds=dur), data=data))
+        key = (app, None if tags is None else tuple(tags))
+        sums[key] = sums.get(key, 0) + dur
+        total += dur
+        t += rnd.randrange(1, 5000)
+    with sut(f"merge_events_by_keys on {len(evs)} events"):
+        by_app = T.merge_events_by_keys(evs, ["app"])
+        out = T.merge_events_by_keys(evs, ["app", "$tags"])
+    app_sums = {}
+    for (app, _), v in sums.items():
+        app_sums[app] = app_sums.get(app, 0) + v
+    got_app = {o.data.get("app"): gen.td_us(o.duration) for o in by_app}
+    if len(by_app) != len(app_sums) or got_app != app_sums:
+        raise Violation(f"merge_events_by_keys(['app']) on {len(evs)} events: group durations are not the exact sums: got {got_app}, exact {app_sums}")
+    got = {}
+    for o in out:
+        key = (o.data.get("app"), None if "$tags" not in o.data else tuple(o.data["$tags"]))
+        if key in got:
+            raise Violation(f"merge_events_by_keys on {len(evs)} events returned two events for the combination {key}")
+        got[key] = gen.td_us(o.duration)
+    if got != sums:
+        bad = [(k, got.get(k), v) for k, v in sums.items() if got.get(k) != v][:3]
+        raise Violation(f"merge_events_by_keys on {len(evs)} events: group durations are not the exact sums (combination, got us, exact us): {bad}; total got {sum(got.values())} exact {total}")
+    with sut(f"sum_durations on {len(evs)} events"):
+        sd = T.sum_durations(evs)
+    if abs(gen.td_us(sd) - total) > max(1, total // 10**9):
+        raise Violation(f"sum_durations on {len(evs)} events = {gen.td_us(sd)} us, exact {total} us")
+    return len(evs)
+
+
+def phase_large(task):
+    from vlib.runner import case_hash
+
+    st_ = Stats()
+    try:
+        n = _large(task)
+    except Violation as v:
+        st_.failure = {"kind": "large", "case": task, "message": v.msg[:1500]}
+        return st_
+    st_.evals = n
+    st_.classes["events"] = n
+    st_.nontrivial.add(case_hash(task))
+    return st_
+
+
+def replay_large(task):
+    _large(task)
 
 
 def phase_small_scope(task):
